@@ -492,6 +492,14 @@ def e2e_items(tier, seed):
                 k += 1
                 cases.append(dict(topo="chain", src=O("11"), dst=O("0"), mlen=l1, mtype=1, frag=True, cost=(0, 2)[k % 2], lat=k % 2, api="send", seed=seed,
                                   id0=(k * 7919) & 0xFFFF, second=[l2, 1], lose=list(lose), lose_at=O("1")))
+    # the same between connected mesh nodes (RF24Mesh.write() by address; master -> 0o11 through relay 0o1, and upwards)
+    for (s_, d_, l1, l2) in ((O("0"), O("11"), 30, 40), (O("11"), O("0"), 49, 30)) if tier == "quick" else ((O("0"), O("11"), 30, 40), (O("11"), O("0"), 49, 30), (O("0"), O("11"), 72, 72), (O("21"), O("11"), 30, 60)):
+        nfr = (l1 + 23) // 24 + (l2 + 23) // 24
+        for r_ in range(0, nfr + 1):
+            for lose in itertools.combinations(range(nfr), r_):
+                k += 1
+                cases.append(dict(topo="meshy", src=s_, dst=d_, mlen=l1, mtype=1, frag=True, cost=(0, 2)[k % 2], lat=k % 2, api="mesh-write", seed=seed,
+                                  id0=(k * 7919) & 0xFFFF, second=[l2, 1], lose=list(lose), lose_at=O("1")))
     # the same with two fragmented MULTICASTS in a row (no frame of the sender's own in between), any subset of the frames lost on the air
     for (l1, l2) in ((30, 40), (49, 30), (30, 60), (72, 72)) if tier == "quick" else ((30, 40), (49, 30), (30, 60), (72, 72), (25, 144), (144, 25), (96, 49)):
         nfr = (l1 + 23) // 24 + (l2 + 23) // 24
